@@ -874,3 +874,59 @@ V('c03-nsec-without-answers', 'C03', 'C03.ADDRNSEC', QHF,
 V('c15-twin-nested-shortcircuit', 'C15', 'C15.CONTAINERS', QHF,
   "            if len(self._questions) == 1:\n                question = self._questions[0]\n                if question.type in _RESPOND_IMMEDIATE_TYPES:\n                    self._mcast_now.add(answer)\n                    continue",
   "            if self._is_probe or (len(self._questions) == 1 and self._questions[0].type in _RESPOND_IMMEDIATE_TYPES):\n                self._mcast_now.add(answer)\n                continue", expect='silent')
+
+# ---------------------------------------------------------------- round 7: behaviour-preserving counterparts of seeded changes
+V('c20-twin-hash-helper', 'C20', 'C20.CONGRUENCE', DNS,
+  "        self._hash = hash((self.key, type_, self.class_, next_name, *self.rdtypes))",
+  "        self._hash = self._identity_hash(next_name, *self.rdtypes)",
+  more=[(DNS, "        super().__init__(name, type_, class_)\n        self.ttl = ttl\n        self.created = created or current_time_millis()\n",
+         "        super().__init__(name, type_, class_)\n        self.ttl = ttl\n        self.created = created or current_time_millis()\n\n    def _identity_hash(self, *rdata: Any) -> int:\n        return hash((self.key, self.type, self.class_, *rdata))\n")],
+  expect='silent')
+V('c20-hash-helper-unsorted', 'C20', 'C20.CONGRUENCE', DNS,
+  "        self._hash = hash((self.key, type_, self.class_, next_name, *self.rdtypes))",
+  "        self._hash = self._identity_hash(next_name, *rdtypes)",
+  more=[(DNS, "        super().__init__(name, type_, class_)\n        self.ttl = ttl\n        self.created = created or current_time_millis()\n",
+         "        super().__init__(name, type_, class_)\n        self.ttl = ttl\n        self.created = created or current_time_millis()\n\n    def _identity_hash(self, *rdata: Any) -> int:\n        return hash((self.key, self.type, self.class_, *rdata))\n")])
+V('c20-twin-scope-helper', 'C20', 'C20.CONGRUENCE', DNS,
+  "            and self.scope_id == other.scope_id\n", "            and self._same_scope(other)\n",
+  more=[(DNS, "    def _eq(self, other) -> bool:  # type: ignore[no-untyped-def]\n        return (\n            self.address == other.address\n",
+         "    def _same_scope(self, other) -> bool:  # type: ignore[no-untyped-def]\n        if self.scope_id == other.scope_id:\n            return True\n        return False\n\n    def _eq(self, other) -> bool:  # type: ignore[no-untyped-def]\n        return (\n            self.address == other.address\n")],
+  expect='silent')
+V('c14-twin-more-inline', 'C14', 'C14.TC', '_protocol/outgoing.py',
+  "            has_more_to_add = self._has_more_to_add(\n                questions_offset, answer_offset, authority_offset, additional_offset\n            )\n",
+  "            has_more_to_add = (\n                questions_offset < len(self.questions)\n                or len(self.answers) > answer_offset\n                or authority_offset < len(self.authorities)\n                or additional_offset < len(self.additionals)\n            )\n",
+  expect='silent')
+V('c14-more-inline-no-additionals', 'C14', 'C14.SECTIONS', '_protocol/outgoing.py',
+  "            has_more_to_add = self._has_more_to_add(\n                questions_offset, answer_offset, authority_offset, additional_offset\n            )\n",
+  "            has_more_to_add = (\n                questions_offset < len(self.questions)\n                or answer_offset < len(self.answers)\n                or authority_offset < len(self.authorities)\n            )\n")
+V('c09-twin-spacing-else', 'C09', 'C09.CONST', CORE,
+  "            if now < next_time:\n                await self.async_wait(next_time - now)\n                now = current_time_millis()\n                continue\n\n            self.async_send(self.generate_service_query(info))\n            i += 1\n            next_time += _CHECK_TIME\n",
+  "            if next_time <= now:\n                self.async_send(self.generate_service_query(info))\n                i += 1\n                next_time += _CHECK_TIME\n            else:\n                await self.async_wait(next_time - now)\n                now = current_time_millis()\n",
+  expect='silent')
+V('c19-twin-txt-sep-else', 'C19', 'C19.TXT', '_services/info.py',
+  "            record = key\n            if value is not None:\n                if not isinstance(value, bytes):\n                    value = str(value).encode('utf-8')\n                    properties_contain_str = True\n                record += b'=' + value\n            list_.append(record)\n",
+  "            if value is None:\n                record = key\n            else:\n                if not isinstance(value, bytes):\n                    value = str(value).encode('utf-8')\n                    properties_contain_str = True\n                record = key + b'=' + value\n            list_.append(record)\n",
+  expect='silent')
+V('c18-twin-load-helper', 'C18', 'C18.BOUND', '_services/info.py',
+  "            for record in self._get_address_records_from_cache_by_type(zc, _TYPE_A):\n                self._process_record_threadsafe(zc, record, now)\n            for record in self._get_address_records_from_cache_by_type(zc, _TYPE_AAAA):\n                self._process_record_threadsafe(zc, record, now)\n        return self._is_complete\n",
+  "            self._load_known_host_addresses(zc, now)\n        return self._is_complete\n\n    def _load_known_host_addresses(self, zc: 'Zeroconf', now: float_) -> None:\n        for type_ in (_TYPE_A, _TYPE_AAAA):\n            for record in self._get_address_records_from_cache_by_type(zc, type_):\n                self._process_record_threadsafe(zc, record, now)\n",
+  expect='silent')
+V('c18-load-helper-a-only', 'C18', 'C18.BOUND', '_services/info.py',
+  "            for record in self._get_address_records_from_cache_by_type(zc, _TYPE_A):\n                self._process_record_threadsafe(zc, record, now)\n            for record in self._get_address_records_from_cache_by_type(zc, _TYPE_AAAA):\n                self._process_record_threadsafe(zc, record, now)\n        return self._is_complete\n",
+  "            self._load_known_host_addresses(zc, now)\n        return self._is_complete\n\n    def _load_known_host_addresses(self, zc: 'Zeroconf', now: float_) -> None:\n        for type_ in (_TYPE_A,):\n            for record in self._get_address_records_from_cache_by_type(zc, type_):\n                self._process_record_threadsafe(zc, record, now)\n")
+V('c15-twin-str-replace', 'C15', 'C15.ESCAPE', '_protocol/incoming.py',
+  "        info = self.data[self.offset : self.offset + length].decode('utf-8', 'replace')",
+  "        info = str(self.data[self.offset : self.offset + length], 'utf-8', 'replace')", expect='silent')
+V('c15-str-strict-decode', 'C15', 'C15.ESCAPE', '_protocol/incoming.py',
+  "        info = self.data[self.offset : self.offset + length].decode('utf-8', 'replace')",
+  "        info = str(self.data[self.offset : self.offset + length], 'utf-8')")
+V('c02-str-strict-decode', 'C02', 'C02.TOTAL', '_protocol/incoming.py',
+  "        info = self.data[self.offset : self.offset + length].decode('utf-8', 'replace')",
+  "        info = str(self.data[self.offset : self.offset + length], encoding='utf-8')")
+V('c05-twin-reader-renamed', 'C05', 'C05.PURGE', '_services/info.py',
+  "    def _get_ip_addresses_from_cache_lifo(", "    def _fresh_addresses_newest_first(",
+  more=[('_services/info.py', '"List[IPv6Address]", self._get_ip_addresses_from_cache_lifo(zc, now, _TYPE_AAAA)', '"List[IPv6Address]", self._fresh_addresses_newest_first(zc, now, _TYPE_AAAA)'),
+        ('_services/info.py', "self._ipv6_addresses = self._get_ip_addresses_from_cache_lifo(zc, now, _TYPE_AAAA)", "self._ipv6_addresses = self._fresh_addresses_newest_first(zc, now, _TYPE_AAAA)"),
+        ('_services/info.py', '"List[IPv4Address]", self._get_ip_addresses_from_cache_lifo(zc, now, _TYPE_A)', '"List[IPv4Address]", self._fresh_addresses_newest_first(zc, now, _TYPE_A)'),
+        ('_services/info.py', "self._ipv4_addresses = self._get_ip_addresses_from_cache_lifo(zc, now, _TYPE_A)", "self._ipv4_addresses = self._fresh_addresses_newest_first(zc, now, _TYPE_A)")],
+  expect='silent')
